@@ -193,6 +193,16 @@ func init() {
 			return &c01Case{Env: rapid.SampledFrom(envs).Draw(t, "env"), Src: sb.BS(b.String()), How: "splice"}
 		}
 		sub.Rapid(c, c.Share(c.Pick(20000, 1000000)), splice)
+
+		// (d) native coverage-guided fuzzing (thorough tier only)
+		if !c.Quick() && c.Shard == 0 {
+			inputs, _ := nativeFuzz(c, "FuzzParse", 120)
+			for _, in := range inputs {
+				for _, env := range envs {
+					sub.Check(c, &c01Case{Env: env, Src: sb.BS(in), How: "native-fuzz"})
+				}
+			}
+		}
 	}
 	Register(p)
 }
